@@ -391,3 +391,34 @@ Example C15_nonvacuous :
   security_try_from vf (Some (1024, 16)) = Ok {| r_off := 1024; r_len := 16 |} /\ certificate_type (v_get vf) {| r_off := 1024; r_len := 16 |} = 2 /\
   security_try_from v (Some (1024, 16)) = Err EUnmapped /\ security_try_from vf (Some (1028, 16)) = Err EMisaligned.
 Proof. exact DirsProofs.nonvacuous_example. Qed.
+
+(* ---- leaf functions regenerated from the source on every run (tools/gen_leaf.py -> gen/Leaf.v): agreement with the hand-written model ---- *)
+(* src/pe64/exception.rs UnwindInfo::{version, flags, frame_register, frame_offset}, regenerated from the source on
+   every run, are the accessors of Model/Dirs.v on the header byte at the field's Layout offset *)
+From PV.Model Require Mapping Dirs.
+From PV.gen Require Leaf Layout.
+From PV.Proofs Require LeafDirs.
+Theorem C15_leaf_unwind_version : forall g r,
+  Leaf.L_exception_UnwindInfo_version_dom (Dirs.u8at g (Mapping.r_off r + Layout.UNWIND_INFO_VersionFlags_off)) = true ->
+  Leaf.L_exception_UnwindInfo_version_ok (Dirs.u8at g (Mapping.r_off r + Layout.UNWIND_INFO_VersionFlags_off)) = true /\
+  Leaf.L_exception_UnwindInfo_version (Dirs.u8at g (Mapping.r_off r + Layout.UNWIND_INFO_VersionFlags_off)) = Dirs.uw_version g r.
+Proof. exact LeafDirs.uw_version_agrees. Qed.
+Print Assumptions C15_leaf_unwind_version.
+Theorem C15_leaf_unwind_flags : forall g r,
+  Leaf.L_exception_UnwindInfo_flags_dom (Dirs.u8at g (Mapping.r_off r + Layout.UNWIND_INFO_VersionFlags_off)) = true ->
+  Leaf.L_exception_UnwindInfo_flags_ok (Dirs.u8at g (Mapping.r_off r + Layout.UNWIND_INFO_VersionFlags_off)) = true /\
+  Leaf.L_exception_UnwindInfo_flags (Dirs.u8at g (Mapping.r_off r + Layout.UNWIND_INFO_VersionFlags_off)) = Dirs.uw_flags g r.
+Proof. exact LeafDirs.uw_flags_agrees. Qed.
+Print Assumptions C15_leaf_unwind_flags.
+Theorem C15_leaf_unwind_frame_register : forall g r,
+  Leaf.L_exception_UnwindInfo_frame_register_dom (Dirs.u8at g (Mapping.r_off r + Layout.UNWIND_INFO_FrameRegisterOffset_off)) = true ->
+  Leaf.L_exception_UnwindInfo_frame_register_ok (Dirs.u8at g (Mapping.r_off r + Layout.UNWIND_INFO_FrameRegisterOffset_off)) = true /\
+  Leaf.L_exception_UnwindInfo_frame_register (Dirs.u8at g (Mapping.r_off r + Layout.UNWIND_INFO_FrameRegisterOffset_off)) = Dirs.uw_frame_register g r.
+Proof. exact LeafDirs.uw_frame_register_agrees. Qed.
+Print Assumptions C15_leaf_unwind_frame_register.
+Theorem C15_leaf_unwind_frame_offset : forall g r,
+  Leaf.L_exception_UnwindInfo_frame_offset_dom (Dirs.u8at g (Mapping.r_off r + Layout.UNWIND_INFO_FrameRegisterOffset_off)) = true ->
+  Leaf.L_exception_UnwindInfo_frame_offset_ok (Dirs.u8at g (Mapping.r_off r + Layout.UNWIND_INFO_FrameRegisterOffset_off)) = true /\
+  Leaf.L_exception_UnwindInfo_frame_offset (Dirs.u8at g (Mapping.r_off r + Layout.UNWIND_INFO_FrameRegisterOffset_off)) = Dirs.uw_frame_offset g r.
+Proof. exact LeafDirs.uw_frame_offset_agrees. Qed.
+Print Assumptions C15_leaf_unwind_frame_offset.
